@@ -182,6 +182,13 @@ def body(ctx: C.Ctx, proof: C.ProofStatus) -> C.Result:
     # pinned witnesses of the known findings (the main stream steers around them)
     check_dir(ctx, res, zdir, cfg, {"w1.zo": "# T 2150-03-01\n\n- note without zid under a far date\n"}, {"kf_century"})
     check_dir(ctx, res, zdir, cfg, {"w2.zo": "# T\n\n- 240101 text after a date word\no P1 240102 another one\n"}, {"kf_mdate_word"})
+    # a bulk import: many ZID-less notes of one date on one page, so that the allocation runs far into the suffix alphabet
+    # (thorough: past the two-character space) and every handed-out ZID has to be read back as the note's ZID
+    nb = ctx.scale(140, 2650)
+    bulk = "# Bulk 2024-03-05\n\n" + "".join(f"- imported note {i} @old\n" + ("  more text\n" if i % 7 == 0 else "") for i in range(nb))
+    check_dir(ctx, res, zdir, cfg, {"imp/bulk.zo": bulk, "other.zo": "# Other 2024-03-05\n\no same day on another page\n"}, {"bulk_same_date"})
+    res.count("bulk_same_date_notes", nb)
+
     def one(sub, r, rng2, i):
         r.line_pairs = []
         feats = set()
@@ -225,7 +232,7 @@ def classify(f: C.Failure, entry: dict) -> bool:
 
 RULE = (
     "directories of 1-5 generated error-free pages (sub-directories, items with and without ZIDs, long create dates, irregular spacing after the "
-    "prefix, look-alike first words, multi-line items, sections); after `db create`: every note has a ZID in the file, recompiled files == raw index "
+    "prefix, look-alike first words, multi-line items, sections) and one bulk page with 140 (thorough: 2650, past the two-character suffixes) ZID-less notes of one date; after `db create`: every note has a ZID in the file, recompiled files == raw index "
     "rows on every compared field, diff confined to ZID insertion after the prefix, second create and reindex change nothing; non-trivial = directory"
 )
 ASSUME = ["file system atomic", "index read back from raw SQLite rows"]
